@@ -159,6 +159,7 @@ def main():
     cenv = dict(os.environ)
     cenv.update({"RDSIM_REPO": wt, "RDSIM_WORK": root + "/work", "RDSIM_VERIF": root + "/out"})
     cenv.pop("PYTHONPATH", None)
+    so_dirty = False        # the in-place extension was last built from a mutated tree
     for n, (f, ln, op, new) in enumerate(chosen):
         t0 = time.time()
         p = os.path.join(wt, f)
@@ -173,8 +174,14 @@ def main():
         status = None
         if cpp:
             rc, out = build_ext()
+            so_dirty = True
             if rc:
                 status = "compile-fail"
+        elif so_dirty:
+            open(p, "w", newline="").write(orig)
+            build_ext()
+            so_dirty = False
+            open(p, "w", newline="").write("\n".join(lines))
         if status is None:
             # the pinned suite: 118 pass, 4 known failures
             rc, out = sh(["/venv/bin/python", "-m", "pytest", "-q", "-p", "no:cacheprovider", "--timeout=300"],
